@@ -45,6 +45,10 @@ type ReconnCase struct {
 	Seed    int      `json:"seed"`
 }
 
+// gatedReconnect (build tag verif): a cut, then the restarted monitor's reply held at the pause point while a
+// transaction commits. Returns whether the pause point was reached.
+var gatedReconnect func(px *proxy.Proxy, write func(string) error) (bool, error)
+
 type marker struct {
 	name    string
 	outcome string
@@ -81,7 +85,14 @@ func RunReconn(b *abs.Built, tok *abs.Tokens, dir string, c ReconnCase, rec *rec
 	if err != nil {
 		return nil, err
 	}
-	defer cl.Close()
+	defer func() {
+		done := make(chan struct{})
+		go func() { cl.Close(); close(done) }()
+		select {
+		case <-done:
+		case <-time.After(3 * time.Second):
+		}
+	}()
 	cctx, cancel := context.WithTimeout(context.Background(), 10*time.Second)
 	if err := cl.Connect(cctx); err != nil {
 		cancel()
@@ -89,6 +100,22 @@ func RunReconn(b *abs.Built, tok *abs.Tokens, dir string, c ReconnCase, rec *rec
 	}
 	cancel()
 	cli := &Client{ID: 1, C: cl, Monitored: map[string][]string{}, Ctx: in.Ctx}
+	// a client wedged on its own locks blocks Connected() and Close() as well: every call gets a deadline
+	wedged := false
+	connected := func() bool {
+		if wedged {
+			return false
+		}
+		ch := make(chan bool, 1)
+		go func() { ch <- cl.Connected() }()
+		select {
+		case b := <-ch:
+			return b
+		case <-time.After(5 * time.Second):
+			wedged = true
+			return false
+		}
+	}
 	tables := []string{"T1", "T2", "T3"}
 	for i, m := range c.Methods {
 		id, err := cli.Monitor(m, map[string][]string{tables[i]: {"name", "v"}})
@@ -129,8 +156,17 @@ func RunReconn(b *abs.Built, tok *abs.Tokens, dir string, c ReconnCase, rec *rec
 		if err != nil {
 			return err
 		}
+		if wedged {
+			return nil
+		}
 		res, err := in.Transact([]ovsdb.Operation{op})
 		if err != nil {
+			if strings.Contains(err.Error(), "timeout waiting") {
+				// the server notifies the client before it answers the writer: a client that neither
+				// acknowledges nor gives its connection up blocks every transaction on what it monitors
+				wedged = true
+				return nil
+			}
 			return err
 		}
 		for _, r := range res {
@@ -176,8 +212,22 @@ func RunReconn(b *abs.Built, tok *abs.Tokens, dir string, c ReconnCase, rec *rec
 	}
 	fired := 0
 	for _, f := range c.Faults {
+		if f.Kind == "gated" {
+			if gatedReconnect != nil {
+				reached, err := gatedReconnect(px, write)
+				if err != nil {
+					return nil, err
+				}
+				if reached {
+					fired++
+				}
+			}
+			continue
+		}
 		if f.Kind == "blackhole" {
 			px.Blackhole(true)
+			// a transaction of the client's own is in flight while the peer is silent
+			clientTxn()
 			// the probe must notice; meanwhile others commit
 			for i := 0; i < f.Away; i++ {
 				if err := write([]string{"delete", "insert", "update"}[i%3]); err != nil {
@@ -185,7 +235,7 @@ func RunReconn(b *abs.Built, tok *abs.Tokens, dir string, c ReconnCase, rec *rec
 				}
 			}
 			deadline := time.Now().Add(5 * time.Second)
-			for cl.Connected() && time.Now().Before(deadline) {
+			for connected() && time.Now().Before(deadline) {
 				time.Sleep(5 * time.Millisecond)
 			}
 			px.CutNow()
@@ -241,7 +291,17 @@ func RunReconn(b *abs.Built, tok *abs.Tokens, dir string, c ReconnCase, rec *rec
 		}
 		px.Up()
 	}
-	wg.Wait()
+	waited := make(chan struct{})
+	go func() { wg.Wait(); close(waited) }()
+	select {
+	case <-waited:
+	case <-time.After(15 * time.Second):
+		// a Transact call that does not return 12 s after its 3 s context expired
+		mu.Lock()
+		markers = append(markers, marker{"stuck", "stuck"})
+		mu.Unlock()
+		wedged = true
+	}
 	// ---- convergence: connected again and the cache equals the database
 	want := func() (map[string]interface{}, error) {
 		d, _, err := in.Observe()
@@ -251,7 +311,10 @@ func RunReconn(b *abs.Built, tok *abs.Tokens, dir string, c ReconnCase, rec *rec
 	converged := false
 	var snap, d map[string]interface{}
 	for time.Now().Before(deadline) {
-		if cl.Connected() && cl.Cache() != nil {
+		if wedged {
+			break
+		}
+		if connected() && cl.Cache() != nil {
 			// database, cache, database again: a transaction still in flight on the server
 			// (a client call that timed out) must not fall between the two observations
 			d1, err := want()
@@ -282,7 +345,7 @@ func RunReconn(b *abs.Built, tok *abs.Tokens, dir string, c ReconnCase, rec *rec
 	if !converged && os.Getenv("VERIF_DEBUG") != "" {
 		buf := make([]byte, 1<<20)
 		n := runtime.Stack(buf, true)
-		fmt.Fprintf(os.Stderr, "NOT CONVERGED connected=%v\n%s\n", cl.Connected(), string(buf[:n]))
+		fmt.Fprintf(os.Stderr, "NOT CONVERGED wedged=%v\n%s\n", wedged, string(buf[:n]))
 	}
 	if d == nil {
 		var err error
@@ -302,7 +365,7 @@ func RunReconn(b *abs.Built, tok *abs.Tokens, dir string, c ReconnCase, rec *rec
 	}
 	// connected: at the moment the cache was seen converged (with an inactivity probe of 150 ms an overloaded
 	// machine can make the client give up a healthy connection a moment later: not a fault of the client)
-	if err := rec.Emit(map[string]interface{}{"ev": "reconn", "db": 0, "cli": 1, "connected": converged || cl.Connected(), "converged": converged,
+	if err := rec.Emit(map[string]interface{}{"ev": "reconn", "db": 0, "cli": 1, "connected": converged || connected(), "converged": converged, "wedged": wedged,
 		"faults": fired}); err != nil {
 		return nil, err
 	}
@@ -314,7 +377,7 @@ func RunReconn(b *abs.Built, tok *abs.Tokens, dir string, c ReconnCase, rec *rec
 		}
 	}
 	mu.Unlock()
-	return map[string]interface{}{"converged": converged, "fired": fired, "markers": len(markers), "msgs": px.Msgs}, nil
+	return map[string]interface{}{"converged": converged, "fired": fired, "markers": len(markers), "msgs": px.Msgs, "wedged": wedged}, nil
 }
 
 func sameJSON(a, b interface{}) bool {
